@@ -20,7 +20,7 @@ const c14aRule = "exporter and importer HTTPTransfer with generated name sets (m
 	"then for one small dump the body is truncated at EVERY byte offset (fresh importer each); oracle: clean matched names == exporter's entries (Walk multiset), everything else untouched / nothing imported, truncated => imported subset of exported entry-wise equal, Import returns nil and never panics; " +
 	"non-trivial = >=2 names on a side and at least one fault, or a truncation sweep ran"
 
-const c14bRule = "gob types hash laws over a pool of 8 struct types: rapid draws a subset, two registration orders with multiplicities and an extra type; each order is evaluated in a FRESH process (the test binary re-executes itself) printing GobTypesHash(); " +
+const c14bRule = "gob types hash laws over a pool of 10 struct types (two of them with the same package and type name under different import paths): rapid draws a subset, two registration orders with multiplicities and an extra type; each order is evaluated in a FRESH process (the test binary re-executes itself) printing GobTypesHash(); " +
 	"oracle: equal for equal sets (any order, any repetition, any process), different after adding a type; non-trivial = subset of >=2 types with a repetition or a genuinely different order"
 
 type rtFault struct {
@@ -369,11 +369,11 @@ func drawOrder(c *Case, set []int, label string) ([]int, bool) {
 }
 
 func propHashLaws(c *Case) {
-	mask := c.Int("subset", 0, 255)
+	mask := c.Int("subset", 0, 1<<len(hashPool)-1)
 
 	var set, others []int
 
-	for i := 0; i < 8; i++ {
+	for i := 0; i < len(hashPool); i++ {
 		if mask&(1<<i) != 0 {
 			set = append(set, i)
 		} else {
@@ -425,4 +425,96 @@ func propHashLaws(c *Case) {
 		c.Tracef("adding type %d: order %v -> %d", extra, o3, h3)
 		c.Assert(h3 != h1, "hash-ignores-added-type", "adding type #%d to %v did not change the types hash (%d)", extra, set, h1)
 	}
+}
+
+const c14cRule = "late registration, evaluated in a FRESH process per case: types of a drawn set are registered, an exporter (one Export() handler, created once) serves a first import, then a further type is registered and a value of it is cached, and a second import through the SAME handler must again reproduce the exporter's cache (both sides now have the new types hash); " +
+	"non-trivial = the second import ran (always)"
+
+// TestC14LateRegistration: the Export handler validates against the current types hash.
+func TestC14LateRegistration(t *testing.T) {
+	runCheck(t, "C14", "C14LateRegistration", c14cRule, func(c *Case) {
+		first := c.Int("first-set", 1, 255)
+		extra := c.Pick("extra", 8)
+		first &^= 1 << extra
+
+		cmd := exec.Command(os.Args[0])
+		cmd.Env = append(os.Environ(), "VERIF_CHILD=late", fmt.Sprintf("VERIF_LATE=%d,%d", first, extra))
+
+		out, err := cmd.CombinedOutput()
+		c.Tracef("child(first=%b extra=%d): %s", first, extra, strings.TrimSpace(string(out)))
+		c.NonTrivial()
+
+		if err != nil || !strings.Contains(string(out), "LATE=OK") {
+			msg := string(out)
+			if i := strings.Index(msg, "LATE=FAIL"); i >= 0 {
+				msg = msg[i:]
+			}
+
+			c.Failf("late-registration", "types %b registered, import ok, then type #%d registered: %s (%v)", first, extra, firstLine(msg), err)
+		}
+	})
+}
+
+// childLateMain runs the late-registration scenario in a fresh process.
+func childLateMain() {
+	var first, extra int
+
+	_, _ = fmt.Sscanf(os.Getenv("VERIF_LATE"), "%d,%d", &first, &extra)
+
+	for i := 0; i < 8; i++ {
+		if first&(1<<i) != 0 {
+			cache.GobRegister(hashPool[i])
+		}
+	}
+
+	cache.GobRegister("")
+
+	src := cache.NewShardedMap()
+	_ = src.Write(bg, []byte("k1"), "v1")
+
+	for i := 0; i < 8; i++ {
+		if first&(1<<i) != 0 {
+			_ = src.Write(bg, []byte(fmt.Sprintf("t%d", i)), hashPool[i])
+		}
+	}
+
+	exp := &cache.HTTPTransfer{}
+	exp.AddCache("c", src)
+	handler := exp.Export()
+
+	doImport := func(stage string) bool {
+		dst := cache.NewSyncMap()
+		imp := &cache.HTTPTransfer{Transport: &fakeTransport{handler: handler, faults: map[string]rtFault{}, sizes: map[string]int{}, seen: map[string]int{}}}
+		imp.AddCache("c", dst)
+
+		if err := imp.Import(bg, "http://exporter.invalid/x"); err != nil {
+			fmt.Printf("LATE=FAIL %s: Import returned %v\n", stage, err)
+
+			return false
+		}
+
+		want := plainDump{be: &shardedBE{c: src}}.rows()
+		got := plainDump{be: &syncBE{c: dst}}.rows()
+
+		if ok, diff := rowsEqual(false, want, got); !ok {
+			fmt.Printf("LATE=FAIL %s: imported cache differs from the exporter's: %s\n", stage, diff)
+
+			return false
+		}
+
+		return true
+	}
+
+	if !doImport("before late registration") {
+		return
+	}
+
+	cache.GobRegister(hashPool[extra])
+	_ = src.Write(bg, []byte("late"), hashPool[extra])
+
+	if !doImport("after registering one more type") {
+		return
+	}
+
+	fmt.Println("LATE=OK")
 }
